@@ -459,6 +459,13 @@ def conc_scenarios(ctx):
          mk([["A", "alice", "typo"], ["T", 1 * S]], [["alice", "typo", 0], ["alice", "pa", 0]],
             followups=[["alice", "pa"], ["alice", "typo"], ["bob", "pb"]])),
         ("no-entries,same-login-twice", mk([], [["alice", "pa", 0], ["alice", "pa", 0]])),
+        # one thread walks the failed-login cache (housekeeping) while the other is about to ADD an entry to it, or to the
+        # other cache: insertions during another thread's iteration
+        ("failed-entry-present,new-failed-attempt-concurrently", mk([["A", "bob", "w"], ["T", 1 * S]], [["alice", "pa", 0], ["carol", "w", 0]])),
+        ("two-failed-entries-present,two-new-failed-attempts", mk([["A", "bob", "w"], ["A", "alice", "w"], ["T", 1 * S]],
+                                                                  [["carol", "w", 0], ["bob", "w2", 0]])),
+        ("failed-and-success-entries-present,new-success-and-new-failure", mk([["A", "bob", "w"], ["A", "alice", "pa"], ["T", 1 * S]],
+                                                                              [["carol", "pc", 0], ["bob", "w2", 0]])),
         ("two-expired-failed-entries,two-logins", mk([["A", "bob", "w"], ["A", "carol", "w"], ["T", 91 * S]],
                                                      [["bob", "w", 0], ["carol", "pc", 0]])),
     ]
@@ -493,7 +500,10 @@ def concurrency(ctx):
     reported = set()
     total = 0
     for label, scn in conc_scenarios(ctx):
-        n, bad = XC.check_scenario(scn, lines, ctx.n(2, 3), rng=ctx.rng, n_random=ctx.n(10, 200), budget=ctx.n(120, 3000))
+        deep = "-present," in label      # insertion during another thread's iteration needs three preemptions (B before its
+        #                                  update, A into the walk, B's update, A's next step)
+        n, bad = XC.check_scenario(scn, lines, 3 if deep else ctx.n(2, 3), rng=ctx.rng, n_random=ctx.n(10, 200),
+                                   budget=ctx.n(1500 if deep else 120, 6000 if deep else 3000))
         total += n
         ctx.case(("concurrent", json.dumps(scn, sort_keys=True)), nontrivial=True,
                  sample=dict(kind="concurrent", label=label, prefix=scn["prefix"], threads=scn["threads"], schedules=n) if label.startswith("expired-failed") else None)
